@@ -161,7 +161,8 @@ pub fn gen(ctx: &mut Ctx, idx: u64) -> (RunSpec, Cfg) {
                 ops.push(if fx.format.is_lazy() && ch.chance(1, 3) { Op::RangeRef(SheetArg::Idx(target)) } else { Op::Range(SheetArg::Idx(target)) });
             }
             40..=64 => ops.push(Op::Range(SheetArg::Idx(target))),
-            65..=74 if fx.format.is_lazy() => ops.push(Op::RangeRef(SheetArg::Idx(target))),
+            65..=71 if fx.format.is_lazy() => ops.push(Op::RangeRef(SheetArg::Idx(target))),
+            72..=74 if fx.format.is_lazy() => ops.push(Op::RangeAtRef(target)),
             65..=74 => ops.push(Op::RangeAt(target)),
             75..=78 => ops.push(Op::Formula(SheetArg::Idx(ch.below(nsheets.max(1) as u64) as usize))),
             79..=81 => ops.push(Op::Worksheets),
@@ -264,7 +265,7 @@ pub fn check(ctx: &mut Ctx, spec: &RunSpec, ex: &Execution) -> (Vec<Violation>, 
     for (i, rec) in ex.ops.iter().enumerate() {
         let opi = i as i32 + 1;
         let sheet = match &rec.op {
-            Op::Range(SheetArg::Idx(k)) | Op::RangeRef(SheetArg::Idx(k)) | Op::RangeAt(k) => m.sheet_names.get(*k).cloned(),
+            Op::Range(SheetArg::Idx(k)) | Op::RangeRef(SheetArg::Idx(k)) | Op::RangeAt(k) | Op::RangeAtRef(k) => m.sheet_names.get(*k).cloned(),
             _ => None,
         };
         if let Outcome::Panic(p) = &rec.outcome {
